@@ -600,6 +600,13 @@ def assemble(unit_path: str, contracts=None, canary: bool = False) -> Assembled:
     includes: List[str] = []
     mod_stack: List[str] = []
 
+    bodies = set()
+    for line in open(unit_path):
+        mb = re.match(r'^\s*//@bodies\s+(.*)$', line)
+        if mb:
+            bodies.update(mb.group(1).split())
+    used_bodies = set()
+
     def process(path: str, text: str, depth: int = 0):
         for ln, line in enumerate(text.split('\n'), 1):
             m = _DIRECTIVE.match(line)
@@ -622,7 +629,18 @@ def assemble(unit_path: str, contracts=None, canary: bool = False) -> Assembled:
                     # the same fragment with every verified body replaced by its contract-only stub
                     txt = txt.replace('//@body ', '//@stub ')
                 process(rest, txt, depth + 1)
-            elif d in ('body', 'stub', 'item', 'decl'):
+            elif d == 'bodies':
+                pass
+            elif d in ('body', 'stub', 'item', 'decl', 'auto'):
+                if d == 'auto':
+                    # body if the unit selects this function (by its last path segment or full item path), else stub
+                    itm = rest.split('::', 1)[1].strip()
+                    key1 = itm.split('::')[-1].strip()
+                    if itm in bodies or key1 in bodies:
+                        d = 'body'
+                        used_bodies.add(itm if itm in bodies else key1)
+                    else:
+                        d = 'stub'
                 opts = {}
                 mm = re.match(r'^(.*?)\s*::\s*(.*?)(\s+\w+=.*)?$', rest)
                 file, item = mm.group(1).strip(), mm.group(2).strip()
@@ -637,12 +655,14 @@ def assemble(unit_path: str, contracts=None, canary: bool = False) -> Assembled:
                 info.gen_start = start
                 info.gen_end = sum(len(s.text.encode()) for s in segs)
                 fns.append(info)
-            elif d in ('unit', 'note', 'serves'):
+            elif d in ('unit', 'note', 'serves', 'bodies'):
                 pass
             else:
                 raise ContractError('%s:%d: unknown directive //@%s' % (path, ln, d))
 
     process(os.path.relpath(unit_path, VERIF), open(unit_path).read())
+    if bodies - used_bodies:
+        raise ContractError('%s: //@bodies names not found in any //@auto directive: %s' % (unit_path, sorted(bodies - used_bodies)))
     text = ''.join(s.text for s in segs)
     table = []
     off = 0
